@@ -145,6 +145,19 @@ Theorem C07_lazy : forall c ops,
 Proof. exact lazy_as_with_thm. Qed.
 Print Assumptions C07_lazy.
 
+(* the specification's totalised default (world 0 for a lazily evaluated item that is not marked) is
+   never read: the walk reads only the marks of the cells the entry reaches and of the path, and at a
+   logging call all of those are marked *)
+Theorem C07_spec_reads : forall m1 m2 hi nm msg w fs c ch nn,
+  (forall id, In id (log_ids hi c ++ lazy_ids ch) -> lookup id m1 = lookup id m2) ->
+  swalk m1 hi nm msg w fs c ch nn = swalk m2 hi nm msg w fs c ch nn.
+Proof. exact swalk_ext. Qed.
+Print Assumptions C07_spec_reads.
+Theorem C07_spec_marked : forall hi root its w m,
+  all_marked (mark_all w (log_marks hi root its) m) (log_ids hi root ++ lazy_ids its).
+Proof. exact spec_marked. Qed.
+Print Assumptions C07_spec_marked.
+
 (* the oracle the driver runs is the proved specification *)
 Theorem C07_wire : forall i, wf i = true -> spec i (model i) = true.
 Proof. exact spec_model. Qed.
